@@ -106,6 +106,10 @@ def c35(t):
         ]
     kprop.decide(out, "liftk", K.gen_lift, "t-liftk", specs, jobs=8 if t == "quick" else 6,
                  harness_timeout=900 if t == "quick" else 2400)
+    out.functions += ["ord::index::Index::encode_rune_balance", "Index::decode_rune_balance (text extracted from src/index.rs at run time)"]
+    out.assumptions += [E2_NOTE,
+        "rune balance lists (E2): the real encode_rune_balance / decode_rune_balance run at the integer level - every LEB128 group is one list element (varint::encode_to_vec / varint::decode replaced by append / read one element; the byte codec is decided by C26) - for lists of 1..3 (quick) / 1..5 (thorough) entries with every id and every u128 balance including 0; Kani runs out of memory on these two functions (Result<_, Error> drop glue plus Vec<u8>), hence the MIR engine; replayed natively with real bytes by vreplay_balance"]
+    run_e2(out, "C35", t)
     return out.finish()
 
 
